@@ -85,6 +85,7 @@ type ValOpts struct {
 	Big      bool // allow 32 KiB+ classes
 	Huge     bool // allow 1-10 MiB (thorough only, rare)
 	MaxSmall int  // upper bound of the "small" class (default 64)
+	KeyLen   int  // length of the key the value is written under (for exact record-boundary sizes)
 }
 
 // Value draws a value spec; tag must be unique per write within the case.
@@ -116,8 +117,21 @@ func Value(t *rapid.T, tag uint32, o ValOpts) *drive.Val {
 	case "medium":
 		return &drive.Val{Len: rapid.IntRange(200, 4000).Draw(t, "vlen"), Tag: tag}
 	case "fragedge":
-		// record payload = 1+8+4+len(key)+4+len(value); MaxRecordSize = 32768
-		return &drive.Val{Len: rapid.IntRange(32768-17-8, 32768-17+4).Draw(t, "vlen"), Tag: tag}
+		// Exact physical-record boundaries of the log. An entry's payload is
+		// 1+8+4+len(key)+4+len(value) bytes; up to MaxRecordSize (32768) it is one
+		// record, above it the first fragment carries 13 bytes + the key and the
+		// remainder (4 + len(value) for short keys) is cut into 32768-byte pieces.
+		// Boundaries: payload == 32768 and remainder == k*32768, each +-2.
+		d := rapid.IntRange(-2, 2).Draw(t, "vedge_d")
+		if rapid.Bool().Draw(t, "vedge_single") {
+			n := 32768 - 17 - o.KeyLen + d
+			if n < 1 {
+				n = 1
+			}
+			return &drive.Val{Len: n, Tag: tag}
+		}
+		k := rapid.IntRange(1, 3).Draw(t, "vedge_k")
+		return &drive.Val{Len: k*32768 - 4 + d, Tag: tag}
 	case "buf":
 		return &drive.Val{Len: rapid.IntRange(32*1024, 70*1024).Draw(t, "vlen"), Tag: tag}
 	case "multi":
@@ -183,7 +197,10 @@ func Steps(t *rapid.T, p *drive.Program, o ProgOpts) []drive.Step {
 		op := rapid.SampledFrom(ops).Draw(t, "op")
 		switch op {
 		case "put":
-			steps = append(steps, drive.Step{Op: "put", K: rapid.IntRange(0, nk-1).Draw(t, "k"), V: Value(t, tag, o.Val)})
+			k := rapid.IntRange(0, nk-1).Draw(t, "k")
+			vo := o.Val
+			vo.KeyLen = len(p.Keys[k])
+			steps = append(steps, drive.Step{Op: "put", K: k, V: Value(t, tag, vo)})
 			tag++
 		case "del":
 			steps = append(steps, drive.Step{Op: "del", K: rapid.IntRange(0, nk-1).Draw(t, "k")})
@@ -210,6 +227,7 @@ func Steps(t *rapid.T, p *drive.Program, o ProgOpts) []drive.Step {
 						}
 						vo.Big, vo.Huge = false, false
 					}
+					vo.KeyLen = len(p.Keys[k])
 					body = append(body, drive.TxOp{Op: "put", K: k, V: Value(t, tag, vo)})
 					tag++
 				case "del":
